@@ -140,6 +140,10 @@ def zzPowerModWLoop (w b mod : Nat) (pw : Nat → Nat) : Nat → Nat → Nat →
       -- prod *= powers[slide / 2]; prod %= mod; a = (word)prod
       zzPowerModWLoop w b mod pw f p ((a * pw (slide / 2) % 2 ^ (2 * w)) % mod % 2 ^ w)
 
+/-- the array `word powers[4]` as a lookup function (indices are proved < 4) -/
+def powTbl4 (p0 p1 p2 p3 : Nat) : Nat → Nat
+  | 0 => p0 | 1 => p1 | 2 => p2 | _ => p3
+
 /-- zzPowerModW(a, b, mod, stack) for words a, b, mod (< 2^w), mod != 0 -/
 def zzPowerModW (w a b mod : Nat) : Nat :=
   if b = 0 then 1 % mod else
@@ -155,7 +159,7 @@ def zzPowerModW (w a b mod : Nat) : Nat :=
   let prod := (prod * p0 % 2 ^ (2 * w)) % mod
   let p3 := prod % 2 ^ w
   let p0 := a
-  let pw : Nat → Nat := fun i => match i with | 0 => p0 | 1 => p1 | 2 => p2 | _ => p3
+  let pw : Nat → Nat := powTbl4 p0 p1 p2 p3
   -- pos <- index of the top bit of b
   let pos := Nat.log2 b
   let ss := min (pos + 1) 3
